@@ -738,7 +738,7 @@ def main():
             notes += b.notes
 
     # ---- independent re-check of the compiled proofs (thorough tier): coqchk -o
-    if tier == 'thorough' and cp['ok'] and not replay:
+    if tier == 'thorough' and cp['ok'] and not replay and not os.environ.get('VERIF_SUBSEARCH'):
         import hashlib
         vo = '%s/Properties/%s.vo' % (COQ, pid)
         try:
@@ -757,6 +757,32 @@ def main():
         elif 'rc=0' not in out:
             proof_ok = False
             notes.append('coqchk did not accept the compiled proofs')
+
+    # ---- a proof or the correspondence broke and this run's cases show no failing input:
+    # search harder (thorough-size streams under further seeds) before reporting it as such
+    if (not proof_ok or harmless) and not violations and b is not None and not replay \
+            and not os.environ.get('VERIF_SUBSEARCH') and os.path.exists(BIN + '/driver'):
+        budget = 300 if tier == 'quick' else 1500
+        t_s = time.time()
+        tried = 0
+        for k in range(1, 9):
+            if time.time() - t_s > budget:
+                break
+            env = dict(os.environ, VERIF_SUBSEARCH='1', VERIF_SEED=str(seed * 31 + 1000003 * k))
+            rc_s, out_s, _ = sh('python3 %s/check.py %s --tier thorough' % (V, pid), env=env, timeout=budget + 600)
+            tried += 1
+            hits = [l for l in out_s.splitlines() if l.startswith('VIOLATION') and 'no-failing-input-found' not in l]
+            if hits:
+                m_ = re.search(r'replay=(\S+)', hits[0])
+                try:
+                    rp_ = json.load(open(m_.group(1)))
+                except (OSError, ValueError, AttributeError):
+                    rp_ = dict(kind='search', lines=[])
+                desc_ = re.sub(r'^VIOLATION property=\S+ replay=\S+ ', '', hits[0])
+                violations.append((desc_ + ' [found by the escalated search, seed %s]' % env['VERIF_SEED'], rp_))
+                break
+        extra['escalated_search_rounds'] = tried
+        notes.append('escalated search: %d thorough-size round(s) under further seeds' % tried)
 
     # ---- verdict
     known = load_known()
@@ -807,6 +833,9 @@ def main():
         assumptions=TRUSTED_BASE, wall_s=round(time.time() - t0, 2), violations=sum(1 for p in printed if p.startswith('VIOLATION')))
     if notes:
         ev['coverage']['notes'] = notes
+    if os.environ.get('VERIF_SUBSEARCH'):
+        print('%s: sub-search seed=%s status=%d' % (pid, seed, status))
+        sys.exit(status)
     os.makedirs(V + '/evidence', exist_ok=True)
     tmp = V + '/evidence/%s.json.tmp' % pid
     with open(tmp, 'w') as f:
